@@ -296,7 +296,20 @@ impl<'r> Grammar<'r> {
                 self.k("begin");
                 let n = self.rng.below(3);
                 for _ in 0..n {
-                    self.simple_stmt_unmarked(depth + 1);
+                    if self.budget > 12 && self.rng.chance(1, 3) {
+                        // a structured statement (case, if/else, repeat, try, for, with ...) inside the body of an anonymous
+                        // routine that is an argument of a call: the parser is inside parentheses here.  The marks of its
+                        // tokens are dropped (the structure oracle reads marks of statement lists only); the parser, wrapper
+                        // and whole-formatter correspondences see the construct.
+                        let from = self.out.len();
+                        self.budget -= 6;
+                        self.stmt(depth + 1);
+                        for t in &mut self.out[from..] {
+                            t.mark = Mark::None;
+                        }
+                    } else {
+                        self.simple_stmt_unmarked(depth + 1);
+                    }
                     self.t(";");
                 }
                 self.k("end");
